@@ -58,6 +58,11 @@ def run_case(sess, mod, tname, t, x, feats, acc):
     v, history, oom = x
     refder = ref_ber.encode(mod, t, v)
     replay = make_replay(mod, tname, t, x)
+    if len(refder) > 6000 and not getattr(acc, "probe", False):
+        # the allocation-fault enumeration re-runs a codec once per allocation: for values of tens of kilobytes that is
+        # minutes per case and ends in the driver's reply timeout, which is not an oracle
+        acc.excluded["value too large for the allocation-fault enumeration (> 6000 octets of DER)"] += 1
+        return None
     # encodings of the value in every syntax, from the library itself (acceptance is not this property's business)
     r = sess.cmd("enc %s %s der,oer,uper,xer" % (tname, drv.hexs(refder)))
     if "inject" in r:
